@@ -327,37 +327,44 @@ def State.validateTx (s : State) (t : Tx) (isLocal : Bool) : Option Err :=
     else if t.gas < t.intr then some .intrinsic
     else none
 
+/-- the pool-full block of `add`: (state, new transaction refused as underpriced) -/
+def State.makeRoom (s : State) (t : Tx) (isLocal : Bool) : State × Bool :=
+  let limit := s.cfg.globalSlots + s.cfg.globalQueue
+  if s.all.length ≥ limit then
+    let r := if !isLocal then s.underpriced t else (s, false)
+    if r.2 then (r.1, true) else
+    let d := r.1.discard (r.1.all.length - (limit - 1))
+    (d.1.removeMany d.2 false, false)
+  else (s, false)
+
+/-- `add` after validation and room making: replace a pending transaction directly, else enqueue -/
+def State.addAdmitted (s : State) (t : Tx) (isLocal : Bool) : State × Except Err Bool :=
+  let a := t.sender
+  let ac := s.acct a
+  if (getN ac.pending.txs t.nonce).isSome then
+    match ac.pending.add t s.cfg.priceBump with
+    | (false, _, _) => (s, .error .replace)
+    | (true, old, p') =>
+      let s := s.upd a (fun ac => { ac with pending := p' })
+      let s := match old with
+        | some o => (s.allRemove o).pricedRemoved 1
+        | none => s
+      (((s.allAdd t).pricedPut t), .ok old.isSome)
+  else
+    match s.enqueueTx t with
+    | (s, _, false) => (s, .error .replace)
+    | (s, replaced, true) =>
+      let s := if isLocal then s.upd a (fun ac => { ac with isLocal := true }) else s
+      (s, .ok replaced)
+
 /-- `add`: result = error, or `replaced` flag -/
 def State.add (s : State) (t : Tx) (isLocal : Bool) : State × Except Err Bool :=
   if t ∈ s.all then (s, .error .known) else
   match s.validateTx t isLocal with
   | some e => (s, .error e)
   | none =>
-    let limit := s.cfg.globalSlots + s.cfg.globalQueue
-    let full := decide (s.all.length ≥ limit)
-    let (s, under) := if full && !isLocal then s.underpriced t else (s, false)
-    if under then (s, .error .underpriced) else
-    let s := if full then
-        let (s, drop) := s.discard (s.all.length - (limit - 1))
-        s.removeMany drop false
-      else s
-    let a := t.sender
-    let ac := s.acct a
-    if (getN ac.pending.txs t.nonce).isSome then
-      match ac.pending.add t s.cfg.priceBump with
-      | (false, _, _) => (s, .error .replace)
-      | (true, old, p') =>
-        let s := s.upd a (fun ac => { ac with pending := p' })
-        let s := match old with
-          | some o => (s.allRemove o).pricedRemoved 1
-          | none => s
-        (((s.allAdd t).pricedPut t), .ok old.isSome)
-    else
-      match s.enqueueTx t with
-      | (s, _, false) => (s, .error .replace)
-      | (s, replaced, true) =>
-        let s := if isLocal then s.upd a (fun ac => { ac with isLocal := true }) else s
-        (s, .ok replaced)
+    let r := s.makeRoom t isLocal
+    if r.2 then (r.1, .error .underpriced) else r.1.addAdmitted t isLocal
 
 /-- `addTxsLocked`: (state, per-tx results, dirty accounts) -/
 def State.addTxsLocked (s : State) (txs : List Tx) (isLocal : Bool) : State × List (Except Err Bool) × List Nat :=
